@@ -548,6 +548,19 @@ PROPS['C05']['explanation'] = ('Verus proves, on the text of unregister / unregi
     'and, by induction over histories of any length, ids are never reused and stale ids stay dead. Kani proves Slot::new installs the dispatcher once with SA_RESTART|SA_SIGINFO for all c_int. '
     'The delivery side of the model (what runs) is C02 and is bounded in state shape.')
 
+# Engine V on the real dispatcher (extracted mechanically on every run, see lib/verus_dispatcher.py): unbounded
+UNITS['dispatcher_verus'] = dict(name='dispatcher_verus', engine='verus', module='verus_dispatcher', entry='run_dispatcher', min_verified=4, rlimit=30,
+    obligations=['C02.V-DISPATCH', 'C02.V-ONLY-THIS-SIGNAL', 'C04.V-PREV-FIRST-ONCE', 'C04.V-FALLBACK', 'C03.V-NO-PANIC'])
+FD = 'registry lib.rs: handler (extracted text, Verus, every registry snapshot and fallback value - unbounded): '
+obl('C02.V-DISPATCH', FD + 'whole-trace postcondition', 'the calls one delivery of `sig` makes are exactly: prev.execute of the slot of `sig` once, then every action of `sig` in THE ONE snapshot read, once each, in increasing id order (BTreeMap::values, vstd contract), nothing else - for any number of signals and actions', also=['C04'])
+obl('C02.V-ONLY-THIS-SIGNAL', FD + 'no slot', 'no slot for `sig` in the snapshot: no action of any signal is called; nothing at all unless the fallback is for `sig`')
+obl('C04.V-PREV-FIRST-ONCE', FD + 'slot present', 'the first call of the delivery is the previous handler saved in that slot, for this signal number, and it is called once - also when the slot has no actions')
+obl('C04.V-FALLBACK', FD + 'slot absent', 'the race fallback is executed exactly once iff it is present and for this signal; never together with a slot')
+obl('C03.V-NO-PANIC', FD + 'verifier-generated checks', 'no verifier-generated check on a line of the real dispatcher fails (no unwrap of None, no index or arithmetic failure): the dispatcher cannot panic on any snapshot (the NULL-siginfo abort branch is excluded: rewrite R4)', also=['C02'])
+for _p in ('C02', 'C04', 'C03'):
+    PROPS[_p]['units'] = PROPS[_p]['units'] + ['dispatcher_verus']
+    PROPS[_p]['trusted'] = PROPS[_p]['trusted'] + ['Verus unit dispatcher_verus: assumed contracts (verus/dispatcher/prelude_h.rs, prelude_h2.rs): HalfLock::read returns a guard for SOME snapshot (validity while the guard lives is C01), GlobalData::get, ghost-trace contracts of Prev::execute (real body proved complete by Kani c04_prev_execute) and of a call of an action; vstd contracts of HashMap::get and BTreeMap::values (ascending key order); derived Ord of ActionId = numeric order; rewrites R1-R4 of the extraction (lib/verus_dispatcher.py), in particular the NULL-siginfo abort branch is not verified by this unit (Kani: c02_op_handler)']
+
 # quick tier must stay well under 900 s per check (vp check): the slowest bounded cross-check harnesses run in the thorough
 # tier only for the properties whose unbounded Verus obligations supersede them
 PROPS['C05']['quick_drop'] = ['c04_op_register_vacant', 'c05_op_register_occupied_small', 'c02_hist_order', 'c05_hist_reregister']
@@ -563,8 +576,8 @@ for _p in ('C05', 'C02'):
     PROPS[_p]['units'] = PROPS[_p]['units'] + ['native_c05_hist']
     PROPS[_p]['trusted'] = PROPS[_p]['trusted'] + ['native stand-in C05.NATIVE-HISTORY is an execution of one bounded history, not a proof; it exists for trees whose restructured code is beyond CBMC\'s budget and Verus\' anchors']
 
-PROPS['C02']['technique'] = 'per-operation function contracts on the real mutators and dispatcher from an arbitrary bounded-shape registry state (Kani/CBMC) + unbounded Verus contracts of the mutators on the extracted text (single publication iff changed, id monotone) + bounded native history stand-in'
-PROPS['C04']['technique'] = 'function contract of Prev::execute (complete, Kani) + ordering contract of the first registration checked at the instant of each sigaction call (Kani, bounded state shape) + Verus: published slot keeps / carries the prev of Slot::new (unbounded)'
+PROPS['C02']['technique'] = 'whole-trace function contract of the real dispatcher `handler` on its mechanically extracted text for every snapshot (Verus/Z3, unbounded: prev once, then each action of that signal once in id order, one snapshot) + unbounded Verus contracts of the mutators (single publication iff changed, id monotone, whole view) + Kani/CBMC per-operation contracts on the real crate from an arbitrary bounded-shape state as cross-check and counterexample source + bounded native history stand-in'
+PROPS['C04']['technique'] = 'function contract of Prev::execute (complete, Kani) + Verus contract of the real dispatcher on its extracted text: prev first and once per delivery, fallback iff no slot and same signal (unbounded) + Verus: published slot keeps / carries the prev of Slot::new (unbounded) + ordering contract of the first registration checked at the instant of each sigaction call (Kani, bounded state shape)'
 PROPS['C14']['technique'] = 'checks-before-effects contracts on every checked entry point over all c_int (Kani/CBMC) + Verus: nothing published at either early return of register_unchecked_impl (unbounded)'
 PROPS['C01']['technique'] = PROPS['C01']['technique'] + ' + Verus: composition lemma L-RCU and single-publication contract of the mutators'
 PROPS['C10']['technique'] = 'per-operation function contracts (set-only store, atomic test-and-clear, scan index = signal, channel FIFO) on the real backend.rs / exfiltrators / channel.rs, Kani/CBMC'
